@@ -38,6 +38,16 @@ def _mk_step(others_states):
         if w:
             return None, 1, "ill-formed", None, [Viol("ill-formed:" + w, f"{op} on {state} returned {canon(r)}")]
         succ = _norm(canon(r))
+        if r is not t:
+            # every tier obtainable stays well-formed: editing the derived tier in place (an entry in the MIDDLE of the span) must
+            # leave the source it was derived from untouched and well-formed
+            before = canon(t)
+            mid = (t.minTimestamp + t.maxTimestamp) / 2
+            call(r.insertEntry, tierops.Interval(mid - 0.125, mid + 0.125, "probe") if r.tierType == "IntervalTier" else tierops.Point(mid, "probe"), "merge", "silence")
+            w2 = wellformed(t)
+            if w2 or canon(t) != before:
+                return None, 2, "ill-formed", None, [Viol("source-corrupted-by-editing-derived-tier",
+                                                          f"{op} on {state}: after insertEntry on the returned tier the source is {canon(t)} ({w2 or 'changed'})")]
         return succ, 1, op[0], (op[0], len(state[4]), len(succ[4])) if succ != state else None, []
     return step
 
@@ -189,4 +199,17 @@ def parts(tier):
              "point under span cap %d: histories of EVERY length over this menu are covered" % cap,
         bounds={"depth": "fixed point", "span_cap": cap, "label_length_cap": 5}, max_depth=None, prune=_prune_fn(cap, 5),
         state_cap=400000))
+
+    # history independence of the operations of this property (shared battery, see mc/props/live.py)
+    from mc.props import live as _live, tierops as _tierops
+    _hseeds = [("I", "t", 0.0, 4.0, D.labelled(x)) for x in D.interval_sets(D.unit_grid(5), 2)] + \
+              [("P", "t", 0.0, 4.0, D.labelled_points(x)) for x in D.point_sets(D.unit_grid(5), 2)]
+    _hothers = {"I": _tierops.OTHERS_I, "P": _tierops.OTHERS_P}
+    _hvals = (0.0, 0.5, 1.0, 2.0, 3.0, 4.5)
+    ps.append(InputPart(
+        "history-independence", lambda: _live.tier_history_cases(_hseeds, _hothers, _hvals),
+        lambda c: _live.check_tier_history(c, _hothers, _hvals),
+        rule="every (query/copy operation, in-place mutation) sequence on ONE live tier (all tiers of <=2 entries): afterwards the live "
+             "tier and a fresh tier with the same fields agree under ~20 observations as receiver and as argument",
+        bounds={}, chunk=16))
     return ps
